@@ -1,1 +1,9 @@
 # edited as rules are built; executed by gen_manifest.py
+TB = "Trusted base: go/types+go/packages (Go 1.23.5, x/tools v0.29.0) for the compiler's own typed syntax, acorn 8.16 as parser of the prelude, go/parser for the natives overlay (cannot be type-checked here). Spec-derived tables (which operators overflow, Go 1.20 node/type kinds, ECMAScript host names) are frozen in the checker with reasons. The behavioural remainder of the property is NOT decided."
+
+claim("C01", "link-closure, exhaustiveness, must-call and lexical lints over the template corpus, prelude AST and natives",
+      "Decides structural necessary conditions: every $name/arity/property the compiler or natives reference exists in the prelude; every totality-claiming dispatch (statements, expressions, operators, builtins, type kinds) covers its computed domain; Compile converts panics to errors; templates lex as JavaScript and cannot glue -- / ++; program assembly order; 32-bit sizes. A one-line edit that breaks one of these breaks whole classes of programs while the 777 tests (which never execute generated JavaScript) stay green.",
+      TB, "DESIGN.md §3 C01, §2.1, §2.2")
+claim("C06", "finite-domain abstract interpretation of operator arms over (operator, kind) pairs + coercion/constant tables",
+      "Decides that fixNumber/$internalize implement the width table, that every (operator, kind) pair whose JavaScript result can overflow returns a correctly coerced expression (all 11 small kinds x all operators enumerated), helper dispatch and mode flags, divide-by-zero throws, radix constants of the 64-bit helpers, operator totality. Does not decide numeric values.",
+      TB, "DESIGN.md §3 C06")
